@@ -51,6 +51,44 @@ theorem O4_lengthWithoutLastLabel {n : List Bytes} (hn : NameOK n) (hne : n ≠ 
 example : bytesLt (Key [[99, 111, 109]] [0, 9]) (Key [[99, 111, 109], [97]] [0, 0]) = true := by decide
 example : Loc.commonPrefix (pack [[97], [98]]) (pack [[97], [97, 98]]) 7 0 = some 2 := by decide
 
+/-! ### 2. name → map: the closest-key search equals the label-by-label search -/
+
+/-- `findMapInSortedData` over a v2 store and `FindMap` over a v1 store that hold the same map
+declarations `maps` (owner labels → wildcard? → map id) under the 2-byte map type `mtype` return the
+same map for every well-formed query name of at most 255 octets; in particular the v2 search never
+panics. The v2 store may hold arbitrary other keys that do not start with `mtype`; a key under
+`mtype` holds a single value (`RepMapsV2.keys`), which makes "the stored bytes minus the 4-byte
+chunk header" and "the first value" the same thing. Covers: wildcard map at the queried name itself
+(not a match), root wildcard map, no maps at all, sibling labels that are byte-prefixes of each
+other. No lower-case assumption is needed. -/
+theorem findMapSorted_eq_findMapV1 {s₁ s₂ : Store} {mtype : Bytes} {maps : Maps}
+    (h₁ : RepMapsV1 s₁ mtype maps) (h₂ : RepMapsV2 s₂ mtype maps) (hmt : mtype.length = 2)
+    (q : List Bytes) (hq : NameOK q) (hlen : (pack q).length ≤ 255) :
+    Loc.findMapSorted s₂ (pack q) mtype = .ok (Loc.findMapV1 s₁ (pack q) mtype) := by
+  rw [findMapSorted_eq_spec h₂ hmt q hq (by omega), findMapV1_eq_spec h₁ q hq]
+
+/-- both searches compute the declarative "exact map, else nearest enclosing wildcard map" -/
+theorem findMapSorted_spec {s₂ : Store} {mtype : Bytes} {maps : Maps}
+    (h₂ : RepMapsV2 s₂ mtype maps) (hmt : mtype.length = 2)
+    (q : List Bytes) (hq : NameOK q) (hlen : (pack q).length ≤ 255) :
+    Loc.findMapSorted s₂ (pack q) mtype = .ok (mapSpec maps q) :=
+  findMapSorted_eq_spec h₂ hmt q hq (by omega)
+
+-- non-vacuity: the empty declaration set is represented by the empty stores, and a concrete
+-- neighbourhood (wildcard map at the queried name, root wildcard, sibling `a` / `ab`) evaluates equal
+example : RepMapsV1 [] [0, 0x4d] (fun _ _ => none) ∧ RepMapsV2 [] [0, 0x4d] (fun _ _ => none) :=
+  ⟨fun _ _ _ => rfl, ⟨fun _ h => by simp at h, fun _ _ _ => rfl⟩⟩
+
+example :
+    let s₁ : Store := [([0, 0x4d] ++ pack [[97]] ++ [0x2a], [[0, 1]]), ([0, 0x4d] ++ pack [] ++ [0x2a], [[0, 2]]),
+      ([0, 0x4d] ++ pack [[97, 98]] ++ [0x3d], [[0, 3]])]
+    let s₂ : Store := [([0, 0x4d] ++ pack [[97]] ++ [0x2a], [[0, 1]]), ([0, 0x4d] ++ pack [] ++ [0x2a], [[0, 2]]),
+      ([0, 0x4d] ++ pack [[97, 98]] ++ [0x3d], [[0, 3]]), (Key [[97]] [0, 0], [[1]])]
+    (match Loc.findMapSorted s₂ (pack [[97]]) [0, 0x4d] with | .ok r => r | _ => none) = some [0, 2] ∧
+    Loc.findMapV1 s₁ (pack [[97]]) [0, 0x4d] = some [0, 2] ∧
+    (match Loc.findMapSorted s₂ (pack [[98], [97]]) [0, 0x4d] with | .ok r => r | _ => none) = some [0, 1] ∧
+    Loc.findMapV1 s₁ (pack [[98], [97]]) [0, 0x4d] = some [0, 1] := by decide
+
 /-! ### 4. marker order facts, re-checked against the extracted constants -/
 
 /-- map markers `"\000M"`, `"\0008"` sort below the resource-record marker `"\000o"`, the range-point
